@@ -71,20 +71,38 @@ def c20(ctx):
         rep.analysed(ex)
         rep.analysed(eu)
 
-        def seq(fn):
+        def seq(fn, depth=0):
+            """calls into the interpreter in block order, with free helper functions of exec/mod.rs inlined"""
             out = []
             for bi, t in fn.calls():
                 d = callee_def(t) or ""
                 if d.startswith(("exec::", "analysis::", "<exec::")):
+                    h = F.fn(d)
+                    if h is not None and h.file == "src/exec/mod.rs" and h.kind != "closure" and h.d.get("impl_self") is None and depth < 3 and h.path not in ("exec::exec", "exec::exec_using"):
+                        out += seq(h, depth + 1)
+                        continue
                     out.append(d.replace("refcell_raw", "refcell").replace("<In, Out>", "<*>").replace("<std::io::Stdin, std::io::Stdout>", "<*>"))
             return out
         a, b = seq(ex), seq(eu)
-        ok = a == b and len(a) == 3 and a[2] == "analysis::visit::VisitProgram::visit_program" and "ExecStmt" in a[1]
+        ok = a == b and len(a) >= 3 and a[-1] == "analysis::visit::VisitProgram::visit_program" and any("ExecStmt" in x and x.endswith("::new") for x in a[:-1]) and "refcell" in a[0]
         rep.ob("C20.R1", "exec-equals-exec_using", ok, "" if ok else "exec runs %s but exec_using runs %s: the binary would not behave like the library entry point" % (a, b), ex.loc(),
                how="Environment::refcell*(..) ; ExecStmt::new(&env) ; visit_program(program)")
         if ok:
-            vp = [t for bi, t in ex.calls() if callee_def(t) == "analysis::visit::VisitProgram::visit_program"][0]
-            ok2 = vp["dest"]["l"] == 0 and any(d[0] == "param" and d[1] == 1 for d, _ in origins(ex, vp["args"][1]))
+            def returns_vp(fn, prog, depth=0):
+                """fn returns visit_program(.., its parameter `prog`), directly or through a free helper of exec/mod.rs"""
+                for bi, t in fn.calls():
+                    d = callee_def(t) or ""
+                    if t["dest"]["l"] != 0:
+                        continue
+                    if d == "analysis::visit::VisitProgram::visit_program":
+                        return any(dd == ("param", prog) for dd, _ in origins(fn, t["args"][1]))
+                    h = F.fn(d)
+                    if h is not None and h.file == "src/exec/mod.rs" and depth < 3:
+                        for i, a in enumerate(t["args"]):
+                            if any(dd == ("param", prog) for dd, _ in origins(fn, a)) and returns_vp(h, i + 1, depth + 1):
+                                return True
+                return False
+            ok2 = returns_vp(ex, 1)
             rep.ob("C20.R1", "exec-runs-whole-program-once", ok2, "" if ok2 else "exec does not return visit_program(program) of the program passed in", ex.loc(), how="one visitor, one visit_program")
     env_new = None
     for p, fn in F.fns.items():
@@ -172,16 +190,19 @@ def c20(ctx):
             rep.fail("C20.R2", "anchor::From<%s>" % src, "impl From<%s> for cli::Error not found" % src)
             continue
         rep.analysed(fn)
-        strs = []
-        for b in [fn]:
-            for bi, t in b.calls():
-                for a in t["args"]:
-                    for d, p in origins(b, a):
-                        if d[0] == "const" and isinstance(d[1], str) and len(d[1]) > 1:
-                            strs.append((bi, d[1]))
-        first = strs[0][1] if strs else None
+        # every argument a string constant flows into: the set of constants that can reach it
+        per_arg = []
+        for bi, t in fn.calls():
+            for a in t["args"]:
+                cs = sorted({d[1] for d, p in kind_deep(fn, a) if d[0] == "const" and isinstance(d[1], str) and len(d[1]) > 1})
+                if cs:
+                    per_arg.append((bi, cs))
+        with_prefix = [(bi, cs) for bi, cs in per_arg if prefix in cs]
+        first = sorted({c_ for bi, cs in per_arg for c_ in cs})
         to_s = [bi for bi, t in fn.calls() if t["callee"].get("name") == "to_string"]
-        ok = first == prefix and bool(to_s) and (not strs or strs[0][0] < to_s[0])
+        # the prefix is the only text constant of the conversion (no alternative prefix on some path) and precedes the error's text
+        ok = bool(with_prefix) and all(cs == [prefix] for bi, cs in per_arg) and bool(to_s) and min(bi for bi, cs in with_prefix) < to_s[0]
+        first = first if first != [prefix] else prefix
         rep.ob("C20.R2", "prefix::" + src.rsplit("::", 1)[-1], ok, "" if ok else "the message built from a %s starts with %r" % (src, first), fn.loc(), how=repr(prefix) + " + the error's own text")
     printers = set()
     for fn, bi, t in common.who_calls(F, lambda c: c["def"] in ("std::io::_print", "std::io::_eprint")):
